@@ -54,7 +54,7 @@ func genPowers(r *rand.Rand, n int) []int64 {
 
 func genAppMsg(r *rand.Rand, nv, nc int, chainInfoOnly bool) appMsg {
 	m := appMsg{Val: r.Intn(nv), Chain: r.Intn(nc)}
-	k := r.Intn(30)
+	k := r.Intn(34)
 	if chainInfoOnly {
 		k = 4 + r.Intn(6)
 	}
@@ -94,11 +94,16 @@ func genAppMsg(r *rand.Rand, nv, nc int, chainInfoOnly bool) appMsg {
 		m.Kind = "job"
 	case k < 21:
 		m.Kind, m.Data, m.Mev = "slc", fmt.Sprintf("p%d", r.Intn(5)), r.Intn(4) == 0
-	case k < 23:
-		m.Kind, m.Msg, m.Gas = "estimate", r.Intn(6), []uint64{21000, 21000, 50000, 0}[r.Intn(4)]
-	case k < 25:
-		m.Kind, m.Msg, m.Data, m.Gas = "pubdata", r.Intn(6), fmt.Sprintf("txhash%d", r.Intn(3)), uint64(r.Intn(3))
+	case k < 24:
+		m.Kind, m.Msg, m.Data = "sign", r.Intn(6), []string{"", "", "", "b"}[r.Intn(4)]
+		if r.Intn(8) == 0 {
+			m.Level = 1
+		}
 	case k < 26:
+		m.Kind, m.Msg, m.Gas = "estimate", r.Intn(6), []uint64{21000, 21000, 50000, 0}[r.Intn(4)]
+	case k < 28:
+		m.Kind, m.Msg, m.Data, m.Gas = "pubdata", r.Intn(6), fmt.Sprintf("txhash%d", r.Intn(3)), uint64(r.Intn(3))
+	case k < 29:
 		m.Kind, m.Msg, m.Data = "errdata", r.Intn(6), "boom"
 	default:
 		m.Kind, m.Msg = "evidence", r.Intn(6)
@@ -264,7 +269,10 @@ func corpusAppScripts() []*appScript {
 			{Height: 4, Time: 1_700_000_220, Restart: true, Txs: []appTx{{Msgs: []appMsg{{Kind: "job"}}}}},
 			{Height: 5, Time: 1_700_000_280, Txs: []appTx{
 				{SimOnly: true, Msgs: []appMsg{{Kind: "minbal", Data: "77"}, {Kind: "feemgr", Data: "0x0000000000000000000000000000000000000001"}}},
-				{Msgs: []appMsg{{Kind: "slc", Data: "q", Mev: true}}}}},
+				{Msgs: []appMsg{{Kind: "slc", Data: "q", Mev: true}}},
+				{Msgs: []appMsg{{Kind: "sign", Val: 0, Msg: -1}, {Kind: "sign", Val: 2, Msg: -1}}},
+				{Msgs: []appMsg{{Kind: "sign", Val: 1, Msg: -1, Level: 1}}},
+				{Msgs: []appMsg{{Kind: "estimate", Val: 1, Msg: -1, Gas: 21000}}}}},
 		},
 	}
 	// (2) a contentious message pruned while five equal validators did not attest: the jail protection
